@@ -112,7 +112,7 @@ def layer_arith(chk, b, tier):
     # (b) random pairs and compositions, Go integer reference
     total = 10 ** 6 if tier == "quick" else 10 ** 8
     chunks = 16 if tier == "quick" else 64
-    res = R.pmap(bulk, [(drv, R.SEED * 1000 + i, total // chunks, total // chunks // 20) for i in range(chunks)])
+    res = R.pmap(bulk, [(drv, R.SEED * 1000 + i, total // chunks, total // chunks // 20) for i in range(chunks)], chk=chk)
     for r in res:
         if "error" in r:
             chk.inconc("counts-bulk: " + r["error"])
@@ -318,7 +318,7 @@ def cap_cases(tier):
 
 
 def run_cap_case(arg):
-    idx, name, binary, scratch, tier = arg
+    idx, name, binary, scratch, tier, shimdir, nperm = arg
     rng = random.Random("C05c|%d|%d" % (R.SEED, idx))
     builder = dict((n, f) for n, f in cap_cases(tier))[name]
     d = os.path.join(scratch, "cap%d" % idx)
@@ -374,6 +374,46 @@ def run_cap_case(arg):
             out["viol"].append(("INCONCLUSIVE", "no 'Processing trees' final frame observed"))
         elif pt != ntrees:
             out["viol"].append(("C05/linear-time/trees-processed-differs-from-distinct-trees", {"case": name, "processed": pt, "distinct": ntrees}))
+        # the same repository under other legal enumeration orders: subtrees delivered before / after the trees that
+        # contain them (shim permute mode), and with the biggest subtrees made roots of their own (pending roots are
+        # listed first, so they are already sized when their parents arrive)
+        want_all = {k: ex.sat(k) for k in O.CAPS if k != "reference_count"}
+        for k in range(nperm):
+            pdir = os.path.join(d, "perm%d" % k)
+            plan = R.make_plan(pdir, [{"sig": "rev-list", "ord": -1, "mode": "permute", "seed": rng.getrandbits(31)}])
+            rp = R.sizer(binary, gitdir, ["--json", "--no-progress"], shimdir=shimdir, plan=plan, tmpdir=d, timeout=300, rlimit_cpu=60)
+            out["evals"] += 1
+            shutil.rmtree(pdir, ignore_errors=True)
+            jp, _ = P.parse_json(rp.out) if rp.rc == 0 else (None, None)
+            if jp is None:
+                out["viol"].append(("C05/run-failed/permuted-listing", {"case": name, "rc": rp.rc, "stderr": rp.err[-300:]}))
+                continue
+            bad = {kk: [want_all[kk], jp.get(kk)] for kk in want_all if jp.get(kk) != want_all[kk] and not (has_huge and kk in ("unique_blob_size", "max_expanded_blob_size") and js.get(kk) == jp.get(kk))}
+            if bad:
+                out["viol"].append(("C05/caps/value-under-permuted-listing/" + sorted(bad)[0], {"case": name, "diff": bad}))
+        subtrees = [o for o in ex.reach.values() if o.kind == "tree" and any(e.kind == G.TREE for e in o.entries)]
+        if subtrees and not has_huge:
+            m2refs = dict(m.refs)
+            subtrees.sort(key=lambda t: -ex.exp[t.oid]["dirs"])
+            for i, t in enumerate(subtrees[1:4]):
+                for e in t.entries:
+                    if e.kind == G.TREE:
+                        m2refs["refs/subtrees/s%d" % i] = e.child
+                        break
+            extra = {k: v for k, v in m2refs.items() if k not in m.refs}
+            if extra:
+                G.write_refs(gitdir, extra)
+                rp = R.sizer(binary, gitdir, ["--json", "--no-progress"], tmpdir=d, timeout=300, rlimit_cpu=60)
+                out["evals"] += 1
+                jp, _ = P.parse_json(rp.out) if rp.rc == 0 else (None, None)
+                if jp is None:
+                    out["viol"].append(("C05/run-failed/subtrees-as-roots", {"case": name, "rc": rp.rc, "stderr": rp.err[-300:]}))
+                else:
+                    bad = {kk: [want_all[kk], jp.get(kk)] for kk in want_all if jp.get(kk) != want_all[kk]}
+                    if bad:
+                        out["viol"].append(("C05/caps/value-with-subtrees-delivered-first/" + sorted(bad)[0], {"case": name, "diff": bad}))
+                for k in extra:
+                    os.remove(os.path.join(gitdir, *k.split("/")))
         out["sample"] = {"case": name, "distinct_objects": len(ex.reach), "true_expanded_files": str(ex.true["max_expanded_blob_count"]),
                          "reported": js.get("max_expanded_blob_count"), "true_expanded_bytes": str(ex.true["max_expanded_blob_size"]),
                          "reported_bytes": js.get("max_expanded_blob_size"), "saturated_keys": out["saturated"]}
@@ -430,7 +470,9 @@ def run(chk, b, tier):
     scratch = b.scratchdir()
     names = [n for n, _ in cap_cases(tier)]
     # sequential in the parent for clean rusage accounting would be slow; use 8 workers (each measures its own children)
-    res = R.pmap(run_cap_case, [(i, n, sz, scratch, tier) for i, n in enumerate(names)], nproc=8)
+    shimdir = b.shimdir()
+    nperm = 4 if tier == "quick" else 12
+    res = R.pmap(run_cap_case, [(i, n, sz, scratch, tier, shimdir, nperm) for i, n in enumerate(names)], nproc=8, chk=chk)
     ctl = control_cpu(sz, scratch, 60)
     chk.cov["control_cpu_s"] = round(ctl, 4)
     nsat = 0
